@@ -245,7 +245,13 @@ def landing_site(res, upto_events=None):
     sent = res['sched'].get('thread_sent_site') or {}
     for t in sorted(int(k) for k in sent):
         if t != 0 and (mine is None or t in mine):
-            return site_class(sent[t] if t in sent else sent[str(t)])
+            st = sent[t] if t in sent else sent[str(t)]
+            cls = site_class(st)
+            if cls == 'pedal-setup':
+                # the setup window has two different root causes: the thread dies where it stands (+0: everything it
+                # did is on the sandbox's stacks for the caller to undo) or it first goes on with the setup (+1, +2)
+                cls += '+%d' % (st.get('delay') or 0)
+            return cls
     return 'n/a'
 
 
